@@ -371,7 +371,20 @@ func checkArgGuards(c *core.Ctx, fn *c08fn, idx *int) bool {
 			sort.Strings(keys)
 			bad = append(bad, fmt.Sprintf("line %d: argument guard tests {%s}; the declaration requires exactly {%s}", g.Line, strings.Join(keys, " || "), strings.Join(want, " || ")))
 		default:
-			if len(g.Body) < 2 || core.CText(g.Body[0].Toks) != "self -> private_impl . magic = WUFFS_BASE__DISABLED" || g.Body[len(g.Body)-1].Kind != "return" {
+			pure := fn.f.Effect().Pure()
+			if pure {
+				// A pure method's receiver is `const`: it cannot (and must not) touch the
+				// object; the failed check just returns the zero value (cgen since cafbb40).
+				touches := false
+				for _, st := range g.Body {
+					if hasSelfArrow(st.Toks) {
+						touches = true
+					}
+				}
+				if len(g.Body) < 1 || g.Body[len(g.Body)-1].Kind != "return" || touches {
+					bad = append(bad, fmt.Sprintf("line %d: a failed argument check of a pure method must return without touching the (const) receiver", g.Line))
+				}
+			} else if len(g.Body) < 2 || core.CText(g.Body[0].Toks) != "self -> private_impl . magic = WUFFS_BASE__DISABLED" || g.Body[len(g.Body)-1].Kind != "return" {
 				bad = append(bad, fmt.Sprintf("line %d: a failed argument check must disable the object and return", g.Line))
 			} else if fn.f.Effect().Coroutine() && !isReturnOf(g.Body[len(g.Body)-1], "wuffs_base__error__bad_argument") {
 				bad = append(bad, fmt.Sprintf("line %d: a failed argument check of a coroutine must return wuffs_base__error__bad_argument", g.Line))
@@ -380,7 +393,7 @@ func checkArgGuards(c *core.Ctx, fn *c08fn, idx *int) bool {
 		}
 		// No use of a pointer argument before the guard is possible: the guard is the first statement after the receiver guards.
 	}
-	c.Check(len(bad) == 0, "G2.args", anchor, "pointer/io-token parameters are null-checked and refined numeric parameters are range-checked against exactly their declared bounds before first use; failure disables the object", len(want), strings.Join(bad, "\n"))
+	c.Check(len(bad) == 0, "G2.args", anchor, "pointer/io-token parameters are null-checked and refined numeric parameters are range-checked against exactly their declared bounds before first use; failure disables the object (a pure method, whose receiver is const, returns the zero value instead)", len(want), strings.Join(bad, "\n"))
 	return len(bad) == 0
 }
 
